@@ -741,6 +741,9 @@ def call_value(ex, fv, pos, kw, st, fr, e):
         res.t = fresh('dynb', B)
         n_ = s1.heap.maps['$trlen'] - 1
         s1.heap.set('$tr.resb', z3.Store(s1.heap.get('$tr.resb', I, B), n_, res.t))
+        # ... and so is the identity of the returned object (trace_resr), carried by the value for copy.copy(...)
+        res.items = [V(T_ANY, fresh('dynr', Ref))]
+        s1.heap.set('$tr.resr', z3.Store(s1.heap.get('$tr.resr', I, Ref), n_, res.items[0].t))
         ex.notes.add('A4: user callbacks / unknown callables act only through the public API (rely)')
         out.append((res, s1))
     return out
@@ -853,6 +856,8 @@ def call_module(ex, name, pos, kw, st, fr, e):
             return [(ex.new_list(st, x.ty.elem, h.llen(x.t), h.larrs(x.t, x.ty.elem)), st)]
         if x.kind in ('int', 'real', 'bool', 'none'):
             return [(x, st)]
+        if x.kind == 'dyn' and x.items:
+            x = x.items[0]
         if x.kind == 'ref' and x.ty.cls is None:
             f = z3.Function('copyof', Ref, Ref)
             ex.notes.add('copy.copy of a user value is the uninterpreted term copyof(v)')
